@@ -3,3 +3,4 @@ import BufProofs.Props.C14
 import BufProofs.Props.C15
 import BufProofs.Props.C19
 import BufProofs.Props.C09
+import BufProofs.Props.C02
